@@ -1,5 +1,6 @@
 import CV.Proofs.HttpServer
 import CV.Model.HttpSpec
+import CV.Proofs.HttpWf4
 /-
 C13 - HTTP requests are parsed identically however the stream is segmented.
 
@@ -9,16 +10,16 @@ raises neither the ghost flag `over` (a byte beyond the end of the message was r
 stream is not a single message - pipelining, excess body) nor a parser error nor a Python
 exception; the driver evaluates this hypothesis on every generated message.
 
-OPEN (stated, not proved; evaluated by the driver on every generated message, histograms
-`model_clean`, `reading_model`, `reading_impl`):
-    wellformed_clean : isReading lex k msg fl hb body = true →
-        (∀ l n, rfcChunkSize l = some n → lex.chunk l = some n) →
-        let p := exec lex (init k) msg
-        p.core.bad = false ∧ p.core.complete = true ∧
-        p.core.firstLine = some fl ∧ p.core.hdrBlock = hb ∧ p.core.body = body
-i.e. every message that the RFC-derived decomposition `isReading` (CV/Model/HttpSpec.lean)
-accepts satisfies the cleanliness hypothesis of the theorems below and is read as that
-decomposition.  Until it is proved, the link "grammar-well-formed => clean" rests on the run.
+`wellformed_clean_partial` (formerly OPEN) links the RFC-derived decomposition `isReading`
+(CV/Model/HttpSpec.lean) to the cleanliness hypothesis of the segmentation theorems: every message
+it accepts is read by `exec lex (init k) msg` as exactly that decomposition, complete and clean.
+It needs one constraint on the lexer parameter that the OPEN statement did not have - a request
+line carries no status code (`_parse_request_line` never sets `_status`) - see
+`wellformed_clean_witness`.  `wellformed_one_request` / `wellformed_one_response` are the
+property-level corollaries (every RFC-well-formed message, every segmentation, one event with the
+fields of the decomposition at the last read); `client_early_iff` says exactly when the client
+component fires before the end of a clean stream (Upgrade headers complete), and
+`client_response_no_upgrade` is the client statement without the `QuietPrefixes` hypothesis.
 -/
 namespace CV.C13
 open CV.Http
@@ -192,11 +193,10 @@ def QuietPrefixes (lex : Lex) (p : PState) (segs : List Bytes) : Prop :=
     before the last one triggers the `response` event yields exactly the `response` event (or the
     silence) of one-piece delivery, at the last read, and the same parser afterwards.
 
-    OPEN (not proved; validated by the correspondence on every generated response): the hypothesis
-    `QuietPrefixes` follows from cleanliness for responses without `Connection: upgrade` - it needs
-    the client-side analogue of the server invariant `Http.Inv` (headers complete, not complete =>
-    `_clen != 0` and no upgrade).  `client_upgrade_witness` shows that the hypothesis cannot simply
-    be dropped: an Upgrade response with a body is delivered differently when cut after the headers. -/
+    The hypothesis `QuietPrefixes` follows from cleanliness for responses that are not an Upgrade:
+    `client_response_no_upgrade` below (`client_early_iff` characterises the early firing).
+    `client_upgrade_witness` shows that the hypothesis cannot simply be dropped: an Upgrade
+    response with a body is delivered differently when cut after the headers. -/
 theorem client_response_partial (lex : Lex) (segs : List Bytes)
     (hne : ∀ d ∈ segs, d ≠ []) (hs : segs ≠ [])
     (hclean : (exec lex (init .response) segs.flatten).core.bad = false)
@@ -256,5 +256,235 @@ example : (∀ d ∈ toySegs, d ≠ []) ∧ QuietPrefixes toyLex (init .response
   intro k h0 hk
   have : k = 1 ∨ k = 2 ∨ k = 3 := by simp [toySegs] at hk; omega
   rcases this with rfl | rfl | rfl <;> decide
+
+/-! ### RFC-well-formed messages are clean, and what follows from it -/
+
+/-- a lexer instantiation for the non-vacuity examples below whose chunk-size reader is the RFC
+    one (`toyLex` otherwise) -/
+def rfcLex : Lex := { toyLex with chunk := rfcChunkSize }
+
+/-- **Well-formed => clean (partial: one constraint on the lexer parameter).**  Every message that
+    the RFC-derived decomposition `isReading` accepts as (first line `fl`, header block `hb`,
+    body `body`) is read by the parser model, delivered in one piece, as exactly that: complete,
+    no parser error, no Python exception, no byte beyond the message read (`over`), and the byte
+    strings handed to the lexers are `fl` and `hb`, the body delivered is `body`.
+
+    Hypotheses on the lexer parameter: `hchunk` - the chunk-size reader accepts what RFC 7230 4.1
+    accepts, with the same value (as in the OPEN statement); `hreq` - extra: the request-line lexer
+    yields no status code.  Full statement = without `hreq`; it is false for a (nonsensical)
+    lexer whose request lines carry a status, see `wellformed_clean_witness`.  The real
+    `_parse_request_line` never sets `_status`/`_status_code`, so `hreq` holds of the code by
+    construction; it is not a restriction on messages. -/
+theorem wellformed_clean_partial (lex : Lex) (k : Kind) (msg fl : Bytes) (hb : Option Bytes) (body : Bytes)
+    (hr : isReading lex k msg fl hb body = true)
+    (hchunk : ∀ l n, rfcChunkSize l = some n → lex.chunk l = some n)
+    (hreq : k = .request → ∀ f, lex.first .request fl = some f → f.status = none) :
+    let p := exec lex (init k) msg
+    p.core.bad = false ∧ p.core.complete = true ∧
+    p.core.firstLine = some fl ∧ p.core.hdrBlock = hb ∧ p.core.body = body := by
+  obtain ⟨f, h, _, _, hp⟩ := wf13_exec lex k msg fl hb body hr hchunk
+    (fun hk f hf => hreq hk f (by rw [← hk]; exact hf))
+  exact ⟨hp.bad, hp.complete, hp.firstLine, hp.hdrBlock, hp.body⟩
+
+example : isReading rfcLex .request toyMsg [71] (some [67]) [97, 98] = true ∧
+    (∀ l n, rfcChunkSize l = some n → rfcLex.chunk l = some n) ∧
+    (Kind.request = .request → ∀ f, rfcLex.first .request [71] = some f → f.status = none) :=
+  ⟨by decide, fun _ _ h => h, fun _ f hf => by cases hf; rfl⟩
+
+/-- a chunked request is covered as well: `toyChunked` is `G CRLF T CRLF CRLF 2 CRLF a b CRLF 0 CRLF CRLF` -/
+example : isReading rfcLex .request toyChunked [71] (some [84]) [97, 98] = true := by
+  have hd : decodeChunked [50, 13, 10, 97, 98, 13, 10, 48, 13, 10, 13, 10] = some [97, 98] := by
+    rw [decodeChunked]; simp [splitLine, rfcChunkSize, hexVal, hexNum, CRLF]
+    rw [decodeChunked]; simp [splitLine, rfcChunkSize, hexVal, hexNum, CRLF, trailerExact]
+  simp [isReading, rfcLex, toyLex, toyChunked, bodyOk, CRLF, CRLF2, hd]
+  exact ⟨by decide, by decide⟩
+
+/-- a lexer whose request lines carry status 200 (chunk-size reader: the RFC one) -/
+def statusLex : Lex := { rfcLex with first := fun _ _ => some ⟨1, 1, some 200⟩ }
+
+/-- without `hreq`: `G CRLF CRLF` is a well-formed request without header fields, but a parser
+    whose request-line lexer reports a status code treats it like a response to be read until
+    close, and never completes it -/
+theorem wellformed_clean_witness :
+    isReading statusLex .request [71, 13, 10, 13, 10] [71] none [] = true ∧
+    (∀ l n, rfcChunkSize l = some n → statusLex.chunk l = some n) ∧
+    (exec statusLex (init .request) [71, 13, 10, 13, 10]).core.complete = false :=
+  ⟨by decide, fun _ _ h => h, by decide⟩
+
+/-- the header info the parser ends with for header block `hb` (`none`: no header fields) -/
+def hdrInfoOf (lex : Lex) : Option Bytes → Option HdrInfo
+  | none => some noHdrs
+  | some b => lex.hdrs b
+
+/-- the server's acceptance tests on a completely read request (`_on_read`): the first bytes are
+    not taken for a TLS hello on a plain socket, HTTP major version 1 (else 505), a Host header
+    unless HTTP/1.0 (else 400), canonical path (else 301) -/
+def Servable (lex : Lex) (secure : Bool) (msg fl : Bytes) (hb : Option Bytes) (f : FirstLine) (h : HdrInfo) : Bool :=
+  (!sslHandshake msg || secure) && f.vmajor == 1 && (f.vminor == 0 || h.host) && lex.pathOk fl hb
+
+/-- `segs` is a segmentation (into non-empty reads) of bytes that are, by the RFC-derived
+    decomposition, one request - request line `fl` lexed as `f` (method / target / version),
+    header block `hb` lexed as `h`, body `body` by Content-Length or chunked - that passes the
+    server's acceptance tests -/
+def WellFormedRequest (lex : Lex) (secure : Bool) (segs : List Bytes) (fl : Bytes) (hb : Option Bytes)
+    (body : Bytes) (f : FirstLine) (h : HdrInfo) : Prop :=
+  (∀ d ∈ segs, d ≠ []) ∧
+  isReading lex .request segs.flatten fl hb body = true ∧
+  lex.first .request fl = some f ∧ f.status = none ∧ hdrInfoOf lex hb = some h ∧
+  Servable lex secure segs.flatten fl hb f h = true
+
+/-- **Well-formed => the hypotheses of `one_request` / `keepalive_sequence`.**  A segmentation of
+    an RFC-well-formed, servable request is a `CleanRequest`: the one-piece run is clean, it is a
+    request (no status), and one-piece delivery on a fresh connection fires the `request` event with
+    the fields of the decomposition, deleting the parser entry and keeping that request. -/
+theorem wellformed_request_clean (lex : Lex) (secure : Bool) (segs : List Bytes) (fl : Bytes)
+    (hb : Option Bytes) (body : Bytes) (f : FirstLine) (h : HdrInfo)
+    (hchunk : ∀ l n, rfcChunkSize l = some n → lex.chunk l = some n)
+    (hw : WellFormedRequest lex secure segs fl hb body f h) :
+    CleanRequest lex secure segs fl hb body ∧
+    connRead lex secure {} segs.flatten = (⟨none, some ⟨fl, f, hb, h⟩⟩, .request fl hb body) := by
+  obtain ⟨hne, hr, hf, hst, hh, hsrv⟩ := hw
+  simp only [Servable, Bool.and_eq_true, Bool.or_eq_true, Bool.not_eq_true', beq_iff_eq] at hsrv
+  obtain ⟨⟨⟨hssl, hv⟩, hhost⟩, hpath⟩ := hsrv
+  have hh' : wf13_hi lex hb = some h := by
+    have : hdrInfoOf lex hb = wf13_hi lex hb := by cases hb <;> rfl
+    rw [← this]; exact hh
+  have hssl' : (sslHandshake segs.flatten && !secure) = false := by
+    rcases hssl with h | h <;> simp [h]
+  obtain ⟨hm, hbad, hstat, hone⟩ := wf13_request_facts lex secure segs.flatten fl hb body f h hr hchunk
+    hf hst hh' hssl' hv hhost hpath
+  exact ⟨⟨hne, fun e => hm (by rw [e]; rfl), hbad, hstat, _, hone⟩, hone⟩
+
+example : WellFormedRequest rfcLex false toySegs [71] (some [67]) [97, 98] ⟨1, 1, none⟩
+    ⟨.val 2, false, true, false⟩ ∧ (∀ l n, rfcChunkSize l = some n → rfcLex.chunk l = some n) :=
+  ⟨⟨by decide, by decide, by decide, by decide, by decide, by decide⟩, fun _ _ h => h⟩
+
+/-- **Every RFC-well-formed request, every segmentation: one request, at the last read.**
+    If the bytes `segs.flatten` are, by the RFC-derived decomposition, one request (request line
+    `fl` lexed as `f`: method / target / version; header block `hb` lexed as `h`; body `body` by
+    Content-Length or chunked) that passes the server's acceptance tests, then on a fresh
+    connection every way of cutting them into non-empty reads makes every read but the last do
+    nothing and the last one fire exactly the `request` event with these fields; afterwards
+    `_buffers[sock]` is deleted and `_clients[sock]` is that request.
+    (`hchunk`: the chunk-size reader accepts what RFC 7230 4.1 accepts, with the same value.) -/
+theorem wellformed_one_request (lex : Lex) (secure : Bool) (segs : List Bytes) (fl : Bytes)
+    (hb : Option Bytes) (body : Bytes) (f : FirstLine) (h : HdrInfo)
+    (hchunk : ∀ l n, rfcChunkSize l = some n → lex.chunk l = some n)
+    (hw : WellFormedRequest lex secure segs fl hb body f h) :
+    connReadAll lex secure {} segs =
+      (⟨none, some ⟨fl, f, hb, h⟩⟩,
+       List.replicate (segs.length - 1) .wait ++ [.request fl hb body]) := by
+  obtain ⟨⟨hne, hs, hbad, hstat, _⟩, hone⟩ := wellformed_request_clean lex secure segs fl hb body f h hchunk hw
+  exact one_request lex secure segs hne hs hbad hstat _ fl hb body hone
+
+example : WellFormedRequest rfcLex false toySegs [71] (some [67]) [97, 98] ⟨1, 1, none⟩
+    ⟨.val 2, false, true, false⟩ :=
+  ⟨by decide, by decide, by decide, by decide, by decide, by decide⟩
+
+/-- **Keep-alive sequences of RFC-well-formed requests.**  Successive well-formed, servable
+    requests on one connection, each following the previous response (no pipelining), each cut
+    into reads in any way: every request is seen exactly once, at its last read, with the fields
+    of its decomposition, and the connection's table entries are empty again after each response. -/
+theorem wellformed_keepalive (lex : Lex) (secure : Bool)
+    (msgs : List (List Bytes × Bytes × Option Bytes × Bytes))
+    (hchunk : ∀ l n, rfcChunkSize l = some n → lex.chunk l = some n)
+    (hw : ∀ m ∈ msgs, ∃ f h, WellFormedRequest lex secure m.1 m.2.1 m.2.2.1 m.2.2.2 f h) :
+    serveAll lex secure {} (msgs.map (·.1)) =
+      ({}, msgs.map fun m => List.replicate (m.1.length - 1) .wait ++ [.request m.2.1 m.2.2.1 m.2.2.2]) := by
+  apply keepalive_sequence
+  intro m hm
+  obtain ⟨f, h, hwm⟩ := hw m hm
+  exact (wellformed_request_clean lex secure m.1 m.2.1 m.2.2.1 m.2.2.2 f h hchunk hwm).1
+
+example : ∀ m ∈ [(toySegs, ([71] : Bytes), some ([67] : Bytes), ([97, 98] : Bytes)),
+                 ([toyMsg], [71], some [67], [97, 98])],
+    ∃ f h, WellFormedRequest rfcLex false m.1 m.2.1 m.2.2.1 m.2.2.2 f h := by
+  intro m hm
+  refine ⟨⟨1, 1, none⟩, ⟨.val 2, false, true, false⟩, ?_⟩
+  simp only [List.mem_cons, List.not_mem_nil, or_false] at hm
+  rcases hm with rfl | rfl <;>
+    exact ⟨by decide, by decide, by decide, by decide, by decide, by decide⟩
+
+/-- **When the client fires early.**  On a clean response stream cut into non-empty reads, a read
+    before the last one makes `_on_client_read` fire the `response` event if and only if the header
+    block is complete by then and the headers are an Upgrade (`is_upgrade()`); the other two
+    disjuncts of its test (message complete, `_clen == 0`) cannot hold before the last read. -/
+theorem client_early_iff (lex : Lex) (segs : List Bytes)
+    (hne : ∀ d ∈ segs, d ≠ [])
+    (hclean : (exec lex (init .response) segs.flatten).core.bad = false)
+    (k : Nat) (hk0 : 0 < k) (hk : k < segs.length) :
+    clientFires (execAll lex (init .response) (segs.take k)).core = true ↔
+      ((execAll lex (init .response) (segs.take k)).core.hdrDone = true ∧
+       isUpgrade (exec lex (init .response) segs.flatten).core = true) := by
+  have hwf0 : WF (init .response).core := by unfold WF; simp [init]
+  obtain ⟨hR, hsplit⟩ := wf13_execAll_split lex segs (init .response) k hwf0 hne hk0 hk hclean
+  obtain ⟨hwf, hci⟩ := wf13_execAll_wf lex (segs.take k) (init .response)
+    (fun d hd => hne d (List.mem_of_mem_take hd)) hwf0 (wf13_cinv_init _)
+  have := wf13_client_mid lex _ _ hR hwf hci (by rw [hsplit]; exact hclean)
+  rw [this, hsplit, Bool.and_eq_true]
+
+example : (∀ d ∈ [[83, 13, 10, 85, 13, 10, 13, 10], [97, 98]], d ≠ ([] : Bytes)) ∧
+    (exec upgLex (init .response) [[83, 13, 10, 85, 13, 10, 13, 10], [97, 98]].flatten).core.bad = false ∧
+    clientFires (execAll upgLex (init .response) ([[83, 13, 10, 85, 13, 10, 13, 10], [97, 98]].take 1)).core = true := by
+  decide
+
+/-- **Client side, responses that are not an Upgrade.**  For a clean response stream whose headers
+    are not an Upgrade (`is_upgrade()` false after one-piece delivery; decidable on the response),
+    every segmentation yields exactly the `response` event (or the silence) of one-piece delivery,
+    at the last read, and the same parser afterwards.  (`client_upgrade_witness`: for Upgrade
+    responses with a body this is false - the code hands the connection over at the end of the
+    header block, whatever has arrived by then.) -/
+theorem client_response_no_upgrade (lex : Lex) (segs : List Bytes)
+    (hne : ∀ d ∈ segs, d ≠ []) (hs : segs ≠ [])
+    (hclean : (exec lex (init .response) segs.flatten).core.bad = false)
+    (hup : isUpgrade (exec lex (init .response) segs.flatten).core = false) :
+    clientAll lex (init .response) segs =
+      ((clientRead lex (init .response) segs.flatten).1,
+       List.replicate (segs.length - 1) none ++ [(clientRead lex (init .response) segs.flatten).2]) := by
+  apply client_response_partial lex segs hne hs hclean
+  intro k hk0 hk
+  cases hfire : clientFires (execAll lex (init .response) (segs.take k)).core with
+  | false => rfl
+  | true =>
+    have := ((client_early_iff lex segs hne hclean k hk0 hk).mp hfire).2
+    rw [hup] at this; cases this
+
+example : (∀ d ∈ toySegs, d ≠ []) ∧ toySegs ≠ [] ∧
+    (exec toyLex (init .response) toySegs.flatten).core.bad = false ∧
+    isUpgrade (exec toyLex (init .response) toySegs.flatten).core = false := by
+  decide
+
+/-- **Every RFC-well-formed response, every segmentation: one response, at the last read.**
+    If the bytes `segs.flatten` are, by the RFC-derived decomposition, one response (status line
+    `fl`, header block `hb`, body `body` by Content-Length or chunked, or a 204 without header
+    fields; not an Upgrade), then every way of cutting them into non-empty reads makes every read
+    but the last do nothing and the last one fire exactly the `response` event with these fields,
+    leaving a fresh parser. -/
+theorem wellformed_one_response (lex : Lex) (segs : List Bytes) (fl : Bytes) (hb : Option Bytes)
+    (body : Bytes) (hne : ∀ d ∈ segs, d ≠ [])
+    (hr : isReading lex .response segs.flatten fl hb body = true)
+    (hchunk : ∀ l n, rfcChunkSize l = some n → lex.chunk l = some n) :
+    clientAll lex (init .response) segs =
+      (init .response, List.replicate (segs.length - 1) none ++ [some ⟨some fl, hb, body⟩]) := by
+  obtain ⟨f, h, _, hh, hp⟩ := wf13_exec lex .response segs.flatten fl hb body hr hchunk
+    (fun hk => by cases hk)
+  have hs : segs ≠ [] := by
+    intro e
+    subst e
+    have := hp.firstLine
+    simp [exec, init] at this
+  have hup : isUpgrade (exec lex (init .response) segs.flatten).core = false := by
+    simp [isUpgrade, hp.hi, (wf13_hdr_ok hr hh).2]
+  rw [client_response_no_upgrade lex segs hne hs hp.bad hup]
+  have hfire : clientFires (exec lex (init .response) segs.flatten).core = true := by
+    simp [clientFires, hp.complete]
+  simp only [clientRead, hfire, if_true, hp.firstLine, hp.hdrBlock, hp.body]
+
+example : (∀ d ∈ toySegs, d ≠ []) ∧
+    isReading { rfcLex with first := fun _ _ => some ⟨1, 1, some 200⟩ } .response toySegs.flatten
+      [71] (some [67]) [97, 98] = true ∧
+    (∀ l n, rfcChunkSize l = some n →
+      ({ rfcLex with first := fun _ _ => some ⟨1, 1, some 200⟩ } : Lex).chunk l = some n) :=
+  ⟨by decide, by decide, fun _ _ h => h⟩
 
 end CV.C13
